@@ -1421,13 +1421,20 @@ func (g *gen) typeSwitchSite(iv string, idx int, ds []dyn) string {
 	var cand []target
 	for _, t := range ts {
 		if g.assertable(idx, t) {
-			conf := false
+			conf, conf19 := false, false
 			for _, d := range ds {
 				if g.confusable(idx, d, t) {
 					conf = true
 				}
+				// F-C09-19: with multi-type cases the confusion also happens for interpreted interfaces
+				if !d.matches(t) && d.basic != "nil" && g.shapeOf(d.ti, d.ptr, d.basic) == g.shapeOf(t.ti, t.ptr, t.basic) {
+					conf19 = true
+				}
 			}
 			if conf && excl("F-C09-7") {
+				continue
+			}
+			if conf19 && !conf && excl("F-C09-19") {
 				continue
 			}
 			cand = append(cand, t)
